@@ -10,6 +10,203 @@ from __future__ import annotations
 import sys
 import threading
 
+# the scheduler's own primitives are bound here, before anything is patched
+_Semaphore, _Event, _Thread, _get_ident = threading.Semaphore, threading.Event, threading.Thread, threading.get_ident
+_REAL = {n: getattr(threading, n) for n in ('Lock', 'RLock', 'Event', 'Condition', 'Semaphore', 'BoundedSemaphore')}
+CURRENT = [None]          # the Scheduler whose execution is running (None outside executions)
+
+
+class SchedDeadlock(BaseException):
+    """Raised inside a scheduled thread when every live thread is waiting: the execution cannot continue."""
+
+
+def _wait(cond):
+    """Block the calling scheduled thread until cond() holds, handing the baton to other threads meanwhile.  Outside an execution (or in a thread the
+    scheduler does not own) there is nobody to wait for: the condition must already hold."""
+    s = CURRENT[0]
+    tid = s.tids.get(_get_ident()) if s is not None else None
+    if tid is None:
+        if not cond():
+            raise RuntimeError('a synchronisation primitive of the library would block outside a scheduled thread')
+        return
+    s.wait_until(tid, cond)
+
+
+class CoopLock:
+    """threading.Lock / RLock as the library sees it during an execution: waiting is a scheduling event, not a real block."""
+
+    def __init__(self, reentrant=False):
+        self.owner, self.count, self.reentrant = None, 0, reentrant
+
+    def acquire(self, blocking=True, timeout=-1):
+        me = _get_ident()
+        if self.reentrant and self.owner == me:
+            self.count += 1
+            return True
+        if self.owner is not None and not blocking:
+            return False
+        _wait(lambda: self.owner is None)
+        self.owner, self.count = me, 1
+        return True
+
+    def release(self):
+        if self.owner is None:
+            raise RuntimeError('release unlocked lock')
+        self.count -= 1
+        if self.count <= 0:
+            self.owner, self.count = None, 0
+
+    def locked(self):
+        return self.owner is not None
+
+    __enter__ = acquire
+
+    def __exit__(self, *a):
+        self.release()
+
+    def _is_owned(self):
+        return self.owner == _get_ident()
+
+
+class CoopEvent:
+    def __init__(self):
+        self.flag = False
+
+    def is_set(self):
+        return self.flag
+
+    isSet = is_set
+
+    def set(self):
+        self.flag = True
+
+    def clear(self):
+        self.flag = False
+
+    def wait(self, timeout=None):
+        if timeout is not None and not self.flag:
+            # a timed wait may legitimately give up: let the others run once, then report what the flag says
+            s = CURRENT[0]
+            tid = s.tids.get(_get_ident()) if s is not None else None
+            if tid is not None:
+                s.point(tid)
+            return self.flag
+        _wait(lambda: self.flag)
+        return True
+
+
+class CoopSemaphore:
+    def __init__(self, value=1):
+        self.value = value
+
+    def acquire(self, blocking=True, timeout=None):
+        if self.value <= 0 and not blocking:
+            return False
+        _wait(lambda: self.value > 0)
+        self.value -= 1
+        return True
+
+    def release(self, n=1):
+        self.value += n
+
+    __enter__ = acquire
+
+    def __exit__(self, *a):
+        self.release()
+
+
+class CoopCondition:
+    def __init__(self, lock=None):
+        self.lock = lock if lock is not None else CoopLock(True)
+        self.acquire, self.release = self.lock.acquire, self.lock.release
+        self.waiters = []
+
+    def __enter__(self):
+        return self.lock.acquire()
+
+    def __exit__(self, *a):
+        self.lock.release()
+
+    def wait(self, timeout=None):
+        token = [False]
+        self.waiters.append(token)
+        saved = (self.lock.owner, self.lock.count)
+        self.lock.owner, self.lock.count = None, 0
+        try:
+            if timeout is not None:
+                s = CURRENT[0]
+                tid = s.tids.get(_get_ident()) if s is not None else None
+                if tid is not None and not token[0]:
+                    s.point(tid)
+            else:
+                _wait(lambda: token[0])
+        finally:
+            if token in self.waiters:
+                self.waiters.remove(token)
+            _wait(lambda: self.lock.owner is None)
+            self.lock.owner, self.lock.count = saved
+        return token[0]
+
+    def wait_for(self, predicate, timeout=None):
+        r = predicate()
+        while not r:
+            self.wait(timeout)
+            r = predicate()
+            if timeout is not None:
+                break
+        return r
+
+    def notify(self, n=1):
+        for token in self.waiters[:n]:
+            token[0] = True
+        del self.waiters[:n]
+
+    def notify_all(self):
+        self.notify(len(self.waiters))
+
+    notifyAll = notify_all
+
+
+_COOP = {'Lock': lambda: CoopLock(False), 'RLock': lambda: CoopLock(True), 'Event': CoopEvent, 'Condition': CoopCondition,
+         'Semaphore': CoopSemaphore, 'BoundedSemaphore': CoopSemaphore}
+_REAL_TYPES = None
+
+
+def patch_threading():
+    """From now on the threading module hands out cooperative primitives (the scheduler keeps the real ones it bound at import)."""
+    for n, f in _COOP.items():
+        setattr(threading, n, f)
+
+
+def unpatch_threading():
+    for n, f in _REAL.items():
+        setattr(threading, n, f)
+
+
+def replace_real_primitives(modules):
+    """Primitives the library created at import time (module-level or class-level locks, events ...) are real ones: swap them for cooperative
+    ones, in place, once per process.  Returns how many were replaced."""
+    global _REAL_TYPES
+    if _REAL_TYPES is None:
+        _REAL_TYPES = {type(_REAL['Lock']()): 'Lock', type(_REAL['RLock']()): 'RLock', _REAL['Event']: 'Event', _REAL['Condition']: 'Condition',
+                       _REAL['Semaphore']: 'Semaphore', _REAL['BoundedSemaphore']: 'BoundedSemaphore'}
+    n = 0
+    for m in modules:
+        spaces = [vars(m)] + [vars(v) for v in list(vars(m).values()) if isinstance(v, type) and getattr(v, '__module__', '') == m.__name__]
+        for ns in spaces:
+            for name, v in list(ns.items()):
+                kind = _REAL_TYPES.get(type(v))
+                if kind is not None:
+                    try:
+                        if isinstance(ns, dict):
+                            ns[name] = _COOP[kind]()
+                        else:
+                            setattr(m, name, _COOP[kind]())
+                        n += 1
+                    except Exception:
+                        pass
+    return n
+
 
 class Execution:
     __slots__ = ('choices', 'points', 'results', 'steps', 'hung', 'hot')
@@ -30,8 +227,11 @@ class Scheduler:
         self.prefix = list(prefix)
         self.trace_prefix = trace_prefix
         self.opcode_functions = set(opcode_functions)
-        self.sems = [threading.Semaphore(0) for _ in range(self.n)]
-        self.done_evt = threading.Event()
+        self.sems = [_Semaphore(0) for _ in range(self.n)]
+        self.done_evt = _Event()
+        self.tids = {}                      # OS thread ident -> scheduled thread index
+        self.waiting = [None] * self.n      # condition a thread is blocked on (a callable), or None
+        self.deadlock = False
         self.alive = [True] * self.n
         self.running = None
         self.ex = Execution()
@@ -63,10 +263,38 @@ class Scheduler:
         self.ex.hot.append(self.cur_hot if kind == 'line' else False)
         return enabled[c]
 
+    def _runnable(self, i):
+        if not self.alive[i]:
+            return False
+        w = self.waiting[i]
+        return w is None or bool(w())
+
     def _enabled(self, tid):
-        """Canonical order: the running thread first if still enabled, then ascending ids."""
-        rest = [i for i in range(self.n) if self.alive[i] and i != tid]
-        return ([tid] if tid is not None and self.alive[tid] else []) + rest
+        """Canonical order: the running thread first if still enabled, then ascending ids.  A thread waiting on a primitive whose condition
+        does not hold is not enabled."""
+        rest = [i for i in range(self.n) if i != tid and self._runnable(i)]
+        return ([tid] if tid is not None and self._runnable(tid) else []) + rest
+
+    def wait_until(self, tid, cond):
+        """Called (through the cooperative primitives) by the running thread: give way until cond() holds.  If nobody can run, it is a deadlock."""
+        while not cond():
+            if self.deadlock:
+                raise SchedDeadlock('deadlock')
+            self.waiting[tid] = cond
+            enabled = self._enabled(None)
+            if not enabled:
+                self.deadlock = True
+                self.ex.hung = True
+                self.waiting[tid] = None
+                raise SchedDeadlock('every live thread is waiting')
+            nxt = enabled[0] if len(enabled) == 1 else self._choose('block', enabled, False)
+            self.running = nxt
+            self.sems[nxt].release()
+            self.sems[tid].acquire()
+            if self.deadlock:
+                self.waiting[tid] = None
+                raise SchedDeadlock('deadlock')
+        self.waiting[tid] = None
 
     def point(self, tid, frame=None):
         if frame is not None and (self.watch is not None or self.hot):
@@ -115,6 +343,7 @@ class Scheduler:
         return glob
 
     def _thread(self, tid):
+        self.tids[_get_ident()] = tid
         self.sems[tid].acquire()
         try:
             sys.settrace(self._global_trace(tid))
@@ -127,16 +356,27 @@ class Scheduler:
             self.results[tid] = r
         finally:
             self.alive[tid] = False
+            self.waiting[tid] = None
             enabled = self._enabled(None)
             if not enabled:
-                self.done_evt.set()
+                stuck = [i for i in range(self.n) if self.alive[i]]
+                if stuck:
+                    # the remaining threads all wait for something nobody will provide: wake one so that it can unwind with SchedDeadlock
+                    self.deadlock = True
+                    self.ex.hung = True
+                    self.running = stuck[0]
+                    self.sems[stuck[0]].release()
+                else:
+                    self.done_evt.set()
             else:
                 nxt = enabled[0] if len(enabled) == 1 else self._choose('end', enabled, False)
                 self.running = nxt
                 self.sems[nxt].release()
 
-    def run(self, timeout=60):
-        ts = [threading.Thread(target=self._thread, args=(i,), daemon=True) for i in range(self.n)]
+    def run(self, timeout=20):
+        ts = [_Thread(target=self._thread, args=(i,), daemon=True) for i in range(self.n)]
+        CURRENT[0] = self
+        patch_threading()
         for t in ts:
             t.start()
         if self.watch is not None:
@@ -148,6 +388,8 @@ class Scheduler:
             self.ex.hung = True
         for t in ts:
             t.join(0.5 if self.ex.hung else 5)
+        unpatch_threading()
+        CURRENT[0] = None
         self.ex.results = list(self.results)
         return self.ex
 
@@ -175,7 +417,8 @@ def explore(run, check, bound, first_dev=None, on_execution=None, max_executions
         f = check(ex)
         if f is not None:
             stats['failures'].append((list(ex.choices), f))
-            if len(stats['failures']) >= 6:
+            if len(stats['failures']) >= 6 or (isinstance(f[0], dict) and f[0].get('kind') == 'hang'):
+                # a hung execution leaves blocked threads behind and costs the whole watchdog: one witness is enough
                 stats['capped'] = True
                 return
         used = preempts(ex, len(prefix))
